@@ -22,6 +22,7 @@ def tasks(tier):
         ("t_null_regimes", {"n_grains": n + 1}),
         ("t_dispatch", {"n_grains": 2}),
         ("t_crss", {}),
+        ("t_solver_validates_pair", {"regime": "matrix_dislocation"}), ("t_solver_validates_pair", {"regime": "frictional_yielding"}),
         ("t_failed_update", {"n_grains": n}),
         ("t_zero_mobility", {"regime": "matrix_dislocation", "n_grains": n}), ("t_zero_mobility", {"regime": "frictional_yielding", "n_grains": n}),
     ]
@@ -165,6 +166,39 @@ def t_crss(sess):
     sess.prove("crss: every unsupported or mismatched (phase, fabric) pair raises ValueError", [z3.Not(supported)], cover_exc)
     sess.satisfiable("crss: reach", [z3.Not(supported), cover_exc])
     sess.paths["crss"] = {"paths": len(paths)}
+
+
+def t_solver_validates_pair(sess, regime):
+    """The CPO solver itself (real derivatives, real grain kernel, one grain) with SYMBOLIC phase and fabric ordinals
+    assumed to be an unsupported or mismatched pair, arbitrary orientation, velocity gradient and parameters: every
+    path must end in ValueError -- no input (a vanishing strain rate, a grain that resolves no shear) may return
+    numbers before the pair has been looked at."""
+    core = pydrex_modules()["core"]
+    P, F, Rg = kernel.enums()
+    sess.encode(core.derivatives, core._get_rotation_and_strain, core.get_crss)
+    sess.bounds["solver validates pair"] = "one grain; phase, fabric symbolic integers outside the six supported pairs; arbitrary A, L (D its symmetric part), parameters"
+    ph, fb = z3.Int("phase"), z3.Int("fabric")
+    supported = z3.Or(*[z3.And(ph == 0, fb == k) for k in range(5)], z3.And(ph == 1, fb == 5))
+
+    def fn():
+        sym.ctx().assume(z3.Not(supported))
+        return core.derivatives(**_deriv_args(1, getattr(Rg, regime), phase=symint("phase"), fabric=symint("fabric")))
+
+    with np_installed(core):
+        paths, info = sym.explore(fn, catch=(Exception,), max_paths=200)
+    if info["truncated"]:
+        sess.truncated = True
+    tag = f"solver[{regime}] with an unsupported (phase, fabric) pair"
+    n_exc = 0
+    for k, p in enumerate(paths):
+        if isinstance(p.exc, ValueError):
+            n_exc += 1
+            continue
+        what = "returns numbers" if p.exc is None else f"raises {type(p.exc).__name__} instead of ValueError"
+        sess.prove(f"{tag}: path {k} {what}: must be infeasible", p.pc, z3.BoolVal(False), timeout_ms=10000)
+    sess.prove(f"{tag}: some path raises ValueError", [], z3.BoolVal(n_exc > 0))
+    sess.satisfiable(f"{tag}: reach", [z3.Not(supported)])
+    sess.paths[tag] = {"paths": len(paths), "raising ValueError": n_exc}
 
 
 def t_zero_L(sess, phase, fabric, regime, n_grains):
